@@ -131,6 +131,8 @@ VARIANTS = [
     fire('c11-clone-shares-child', ['C11'], [(RP, "            (item.clone(token_store, token_transformer) for item in self.items),", "            self.items,")], 'COVER-CLONE'),
     fire('c20-eq-skips-tokens', ['C20'], [(BA, "        return isinstance(other, RawTreeModel) and self.tokens == other.tokens and self._eq(other)", "        return isinstance(other, RawTreeModel) and self._eq(other)")], 'EQ-BASE'),
     fire('c20-zip', ['C20'], [(PR, "            all(a == b for a, b in itertools.zip_longest(self, other)))", "            all(a == b for a, b in zip(self, other)))")], 'EQ-WRAP'),
+    silent('c14-twin-unclaim-in-scan', ['C14'], [(IC, "            unclaimed_comments.append(item)\n        if comment_set:", "            item.claimed = False\n            unclaimed_comments.append(item)\n        if comment_set:"),
+                                                   (IC, "        for comment in unclaimed_comments:\n            comment.claimed = False\n", "")]),
     fire('c14-claim-unguarded', ['C14'], [(SC, "    if comment.claimed:\n        if ignore_if_already_claimed:\n            return None\n        raise ValueError('Comment already claimed.')\n    comment.claimed = True",
                                            "    if comment.claimed and not ignore_if_already_claimed:\n        raise ValueError('Comment already claimed.')\n    comment.claimed = True")], 'CLAIM-GUARD'),
     fire('c14-unclaim-keeps-slot', ['C14'], [(SC, "            current.claimed = False\n            self._leading_comment = None", "            current.claimed = False")], 'CLAIM-FLAG'),
